@@ -70,7 +70,7 @@ MULTI = ["set_many", "get_many", "gets_many", "delete_many"]
 
 class Case:
     def __init__(self, op, keys, value=b"v", exp=0, flags=None, cas=1, delta=1, nrarg="none", dnr=True,
-                 stack="client", prefix=b"", unicode=False, encoding="ascii", badarg=False):
+                 stack="client", prefix=b"", unicode=False, encoding="ascii", badarg=False, serde="none"):
         self.__dict__.update(locals())
         del self.__dict__["self"]
 
@@ -120,12 +120,18 @@ def run_case(c, stacks):
         outcome = "sent" if raw else "other:nothing-sent-nothing-raised"
     p = wire.Parser()
     cmds = [cmdrec(x) for x in p.feed(raw)]
+    sflags = 0
     try:
-        vb = value_bytes(c.value, c.encoding)
+        if c.serde == "pickle":
+            from pymemcache import serde as S
+            sv, sflags = S.pickle_serde.serialize(b"k", c.value)
+            vb = sv if isinstance(sv, bytes) else str(sv).encode("ascii")
+        else:
+            vb = value_bytes(c.value, c.encoding)
     except Exception:
         vb = None
     nkeys = len(keys) if op in STORE1 + ["set_many"] else 0
-    flags = c.flags if c.flags is not None else 0
+    flags = c.flags if c.flags is not None else sflags      # an explicit flags argument (even 0) overrides the serializer's
 
     def dec(x):
         if isinstance(x, bytes):
@@ -209,6 +215,17 @@ def gen_cases(tier, seed):
                 cases.append(Case(op, ["k"], delta=d, stack=st, badarg=True))
         if st != "hash":
             cases.append(Case("flush_all", [], exp="0", stack=st, badarg=True))
+    # 4b. a serializer with its own flags, and explicit flags (0 included) overriding them
+    for st in stacks:
+        for op in STORE1 + ["set_many"]:
+            for v in ("text", 12345, b"raw", ("tu", "ple")):
+                for fl in (None, 0, 9, 2 ** 32 - 1):
+                    cases.append(Case(op, ["k"] if op != "set_many" else ["k1", "k2"], value=v, flags=fl, stack=st, serde="pickle",
+                                      nrarg=rnd.choice(["none", "true", "false"])))
+        # cas tokens that look numeric to str.isdigit() but are not ASCII digits
+        for cas in ("\u00b2", "\u0661\u0662\u0663", "\uff11\uff12", b"\xb2"):
+            for enc in ("ascii", "utf-8", "latin-1"):
+                cases.append(Case("cas", ["k"], cas=cas, stack=st, encoding=enc, badarg=True))
     # 5. seeded random combinations
     for _ in range(600 if tier == "quick" else 20000):
         op = rnd.choice(STORE1 + SINGLE + MULTI)
@@ -235,12 +252,15 @@ def main(tier, rep):
     cache = {}
 
     def stacks(c):
-        key = (c.stack, c.prefix, c.unicode, c.encoding, c.dnr)
+        key = (c.stack, c.prefix, c.unicode, c.encoding, c.dnr, c.serde)
         if key not in cache:
             net = fakesock.FakeNet()
             net.add_server(("mc1", 11211))
             kw = dict(socket_module=net, key_prefix=c.prefix, allow_unicode_keys=c.unicode, encoding=c.encoding,
                       default_noreply=c.dnr)
+            if c.serde == "pickle":
+                from pymemcache import serde as S
+                kw["serde"] = S.pickle_serde
             if c.stack == "client":
                 cl = Client(("mc1", 11211), **kw)
             elif c.stack == "pooled":
@@ -258,7 +278,7 @@ def main(tier, rep):
         # malformed noreply command the server answers with an error line nobody reads) must not leak into the next one
         net, cl = stacks(c)
         if any(p[1] or p[2] for p in net.boundary()):
-            del cache[(c.stack, c.prefix, c.unicode, c.encoding, c.dnr)]
+            del cache[(c.stack, c.prefix, c.unicode, c.encoding, c.dnr, c.serde)]
     B = 400
     traces = [{"h": {"maxrej": B + 1}, "ev": evs[i:i + B]} for i in range(0, len(evs), B)]
     acc, rej, st, _ = tlc.validate_traces("WireTrace", traces, chunk=100)
